@@ -12,6 +12,28 @@ vars == <<S, steps, hist, pick>>
 
 Init == S = Init0 /\ steps = 0 /\ hist = <<>> /\ pick = Act("-", "h1", "-", "-", "-", "-", "-", "-")
 
+(* Generation starts from one of several scripted prefixes (states that random walks reach rarely):        *)
+(* two handles on one bucket; a bucket deleted through one handle while another stays open, then           *)
+(* re-created under the same name; a bucket with feeds started through different handles.                  *)
+RECURSIVE ApplySeq(_, _, _)
+ApplySeq(S0, seq, i) == IF i > Len(seq) THEN S0 ELSE ApplySeq(Apply(S0, [seq[i] EXCEPT !.id = i]), seq, i + 1)
+Prefixes ==
+    LET o(h, n, u) == Act("Open", h, n, u, "CreateOrOpen", "-", "-", "-")
+        cad(h) == Act("CloseAndDelete", h, "-", "-", "-", "-", "-", "-")
+        sf(h, c, f, fk) == Act("StartFeed", h, "-", "-", "-", c, f, fk)
+        w(h, c) == Act("Write", h, "-", "-", "-", c, "-", "-") IN
+    { <<>>,
+      <<o("h1", "A", "d1"), o("h2", "A", "d1")>>,
+      <<o("h1", "A", "mem"), o("h2", "A", "mem")>>,
+      <<o("h1", "A", "d1"), o("h2", "A", "d1"), cad("h1"), o("h3", "A", "d1"), o("h4", "A", "d1")>>,
+      <<o("h1", "B", "mem"), o("h2", "B", "mem"), cad("h2"), o("h3", "B", "mem")>>,
+      <<o("h1", "A", "d2"), o("h2", "A", "d2"), sf("h1", "c0", "f1", "live"), sf("h2", "c1", "f2", "live"), w("h1", "c1")>>,
+      <<o("h1", "A", "d1"), w("h1", "c1"), sf("h1", "c0", "f1", "multi")>> }
+GenInit == \E pre \in {RandomElement(Prefixes)} :
+              /\ S = ApplySeq(Init0, pre, 1) /\ steps = Len(pre)
+              /\ hist = [i \in 1..Len(pre) |-> [pre[i] EXCEPT !.id = i]]
+              /\ pick = Act("-", "h1", "-", "-", "-", "-", "-", "-")
+
 Next == /\ steps < MaxSteps
         /\ \E a0 \in Enabled(S) : LET a == [a0 EXCEPT !.id = steps + 1] IN S' = Apply(S, a) /\ pick' = a
         /\ steps' = steps + 1
@@ -32,7 +54,7 @@ GenNext ==
     /\ steps' = steps + 1
     /\ hist' = Append(hist, pick')
     /\ (steps' < MaxSteps \/ PrintT("BEHAVIOUR " \o ToJson(hist')))
-GenSpec == Init /\ [][GenNext]_vars
+GenSpec == GenInit /\ [][GenNext]_vars
 
 ---------------------------------------------------------------------------
 (* C13 *)
